@@ -216,6 +216,11 @@ def run_case(case, ctx):
 			raise Violation('revcomp_involution', f'revcomp(revcomp({s!r})) != input', case)
 		if revcomp(bytearray(s)) != rc:
 			raise Violation('revcomp_types', 'bytearray input differs', case)
+		# the native function takes any 1-D byte buffer: strided views must be read through their stride
+		import numpy as _np
+		wide = bytes(b for x in s for b in (x, 0x58))          # s interleaved with 'X'
+		if len(s) and (revcomp(memoryview(wide)[::2]) != rc or revcomp(_np.frombuffer(wide, dtype=_np.uint8)[::2]) != rc):
+			raise Violation('revcomp_strided', f'revcomp of a strided view of {s!r} differs from revcomp of the same bytes', case)
 		return {'nontrivial': len(s) >= 3, 'classes': ['revcomp_random']}
 	if kind == 'too_long':
 		x = case['kmer'].encode('ascii')
